@@ -60,6 +60,13 @@ theorem parse_encode_plusptype (scal : Bool) (prev : Option PicHdr) (h : PlusHdr
            ⟨rest, pos + (encodePlusHdr scal (Opt.has (Lemmas.PlusRoundTrip.oppInForce prev h) Opt.REFERENCE_PICTURE_SELECTION) h).length⟩) :=
   Lemmas.PlusHeader.plus_round_trip scal prev h hv rest pos
 
+/-- for a header that does not restate the format (UFEP = 000) the `no format change` clause of `Valid` holds whatever the previous
+header was: such a header inherits the format together with the modes -/
+theorem inherit_never_changes_format (scal : Bool) (prev : Option PicHdr) (h : PlusHdr) (hu : h.ufep = false) :
+    Header.formatChanged prev (plusPicture scal (Header.prevOptions prev) h).format = false := by
+  unfold Header.formatChanged plusPicture
+  cases prev <;> simp [hu]
+
 /-- the hypotheses of `parse_encode_plusptype` are satisfiable: a custom-format, custom-clock, UMV, slice-structured,
 reference-picture-selection improved-PB header with extended PAR and extra information -/
 example : Lemmas.PlusRoundTrip.Valid true none
